@@ -382,41 +382,72 @@ def _reset_by_constructor(ctx, K, f):
     return None
 
 
-def _dict_typed(ctx, K, f, g, s, arg):
-    """Why the harvested field holds a dict (None when nothing says so): the annotation of the field / of the setter's
-    parameter / of the getter, the setter's isinstance validation, a dict default."""
-    key = ("c12.dict", id(s.node), f)
+CONTAINER_KINDS = {
+    "dict": MAPPING_TYPES,
+    "list": {"list", "List", "MutableSequence"},
+    "array": {"ndarray", "NDArray", "ArrayLike"},
+}
+
+
+def _kind_of(names: set):
+    """the container kind the type names stand for — only when they say nothing else (`dict | None`, not `float | np.ndarray`:
+    a union with a scalar type does not tell what the field holds)"""
+    rest = set(names) - {"None", "NoneType", "type", "Optional", "np", "numpy"}
+    return next((kind for kind, types in CONTAINER_KINDS.items() if rest and rest <= types), None)
+
+
+def _container_typed(ctx, K, f, g, s, arg):
+    """(kind, why) when the harvested field holds a mutable container — kind 'dict' / 'list' / 'array' — decided by the top level of the
+    annotation of the field / of the setter's parameter / of the getter, the setter's isinstance validation, a literal default;
+    None when nothing says so."""
+    key = ("c12.container", id(s.node), f)
     if key in ctx.cache:
         return ctx.cache[key]
-    why = None
+    found = None
     for c in K.mro:
-        if isinstance(c, str) or why:
+        if isinstance(c, str) or found:
             continue
         fn = c.methods.get("__init__")
         if fn is None:
             continue
         me = fn.self_name or "self"
         for a in ast.walk(_flow(ctx, fn)[0].node):
-            if isinstance(a, ast.AnnAssign) and _self_attr(a.target, me, (f,)) and top_types(a.annotation) & MAPPING_TYPES:
-                why = f"annotated {unparse(a.annotation)} in {fn.qualname}"
+            if isinstance(a, ast.AnnAssign) and _self_attr(a.target, me, (f,)) and _kind_of(top_types(a.annotation)):
+                found = (_kind_of(top_types(a.annotation)), f"annotated {unparse(a.annotation)} in {fn.qualname}")
             elif isinstance(a, (ast.Assign, ast.AnnAssign)) and a.value is not None \
-                    and any(_self_attr(t, me, (f,)) for t in (a.targets if isinstance(a, ast.Assign) else [a.target])) \
-                    and (isinstance(a.value, (ast.Dict, ast.DictComp)) or (isinstance(a.value, ast.Call) and call_name(a.value) in MAPPING_TYPES)):
-                why = why or f"initialised with a dict in {fn.qualname}"
-    if why is None and arg is not None:
+                    and any(_self_attr(t, me, (f,)) for t in (a.targets if isinstance(a, ast.Assign) else [a.target])):
+                if isinstance(a.value, (ast.Dict, ast.DictComp)) or (isinstance(a.value, ast.Call) and call_name(a.value) in MAPPING_TYPES):
+                    found = found or ("dict", f"initialised with a dict in {fn.qualname}")
+                elif isinstance(a.value, (ast.List, ast.ListComp)):
+                    found = found or ("list", f"initialised with a list in {fn.qualname}")
+    if found is None and arg is not None:
         prm = next((x for x in s.node.args.posonlyargs + s.node.args.args if x.arg == arg), None)
-        if prm is not None and prm.annotation is not None and top_types(prm.annotation) & MAPPING_TYPES:
-            why = f"setter parameter annotated {unparse(prm.annotation)}"
-    if why is None and arg is not None:
+        if prm is not None and prm.annotation is not None and _kind_of(top_types(prm.annotation)):
+            found = (_kind_of(top_types(prm.annotation)), f"setter parameter annotated {unparse(prm.annotation)}")
+    if found is None and arg is not None:
+        # a VALIDATION of the argument's type (anything else raises), not a mere branch on it
         sv, sfl = _flow(ctx, s)
         for c in ast.walk(sv.node):
-            t = isinstance_of(c, lambda e: sfl.is_param(e, arg)) if isinstance(c, (ast.Call, ast.UnaryOp)) else None
-            if t and t[0] & MAPPING_TYPES:
-                why = "setter validates isinstance(.., dict)"
-    if why is None and g.node.returns is not None and top_types(g.node.returns) & MAPPING_TYPES:
-        why = f"getter annotated -> {unparse(g.node.returns)}"
-    ctx.cache[key] = why
-    return why
+            t = None
+            if isinstance(c, ast.Assert):
+                t = isinstance_of(c.test, lambda e: sfl.is_param(e, arg))
+                t = t if t and t[1] else None
+            elif isinstance(c, ast.If):
+                t = isinstance_of(c.test, lambda e: sfl.is_param(e, arg))
+                rejected = c.orelse if (t and t[1]) else c.body
+                t = t if t and rejected and all(isinstance(x, ast.Raise) for x in rejected) else None
+            if t and _kind_of(t[0]):
+                found = found or (_kind_of(t[0]), f"setter validates isinstance(.., {sorted(t[0] & CONTAINER_KINDS[_kind_of(t[0])])[0]})")
+    if found is None and g.node.returns is not None and _kind_of(top_types(g.node.returns)):
+        found = (_kind_of(top_types(g.node.returns)), f"getter annotated -> {unparse(g.node.returns)}")
+    ctx.cache[key] = found
+    return found
+
+
+def _dict_typed(ctx, K, f, g, s, arg):
+    """Why the harvested field holds a dict (None when nothing says so)."""
+    found = _container_typed(ctx, K, f, g, s, arg)
+    return found[1] if found and found[0] == "dict" else None
 
 
 def rule_alias(ctx) -> RuleResult:
@@ -460,27 +491,29 @@ def rule_alias(ctx) -> RuleResult:
                     direct, indirect = _mutations(ctx, fn)
                     mutators += direct.get(f, [])
                     deep += indirect.get(f, []) + indirect.get(prop, [])
-            is_dict = _dict_typed(ctx, K, f, g, s, arg) if returns_self and by_ref else None
-            detached = prop in copied or "*" in copied_types or (is_dict is not None and bool(copied_types & MAPPING_TYPES))
-            if returns_self and by_ref and not detached and (mutators or is_dict) and _reset_by_constructor(ctx, K, f) is not None:
+            held = _container_typed(ctx, K, f, g, s, arg) if returns_self and by_ref else None
+            kind, why = held if held else (None, None)
+            detached = prop in copied or "*" in copied_types or (kind is not None and bool(copied_types & CONTAINER_KINDS[kind]))
+            if returns_self and by_ref and not detached and (mutators or kind) and _reset_by_constructor(ctx, K, f) is not None:
                 detached = True
             shared = returns_self and by_ref and bool(mutators) and not detached
-            # a dict handed out by the getter can be edited by the CALLER (copy.options["a"] = ..): shared state even when no
-            # method of the class edits it
-            shared_dict = returns_self and by_ref and is_dict is not None and not detached and not shared
-            if returns_self and by_ref and deep and not mutators and not detached and is_dict is None and s.cls.name + "." + prop not in noted:
+            # a mutable container handed out by the getter can be edited by the CALLER (copy.options["a"] = .., copy.cells[0] = ..):
+            # shared state even when no method of the class edits it
+            shared_held = returns_self and by_ref and kind is not None and not detached and not shared
+            if returns_self and by_ref and deep and not mutators and not detached and kind is None and s.cls.name + "." + prop not in noted:
                 noted.add(s.cls.name + "." + prop)
             res.inst(f"{K.name}.{prop}: returns-stored={returns_self} stores-by-ref={by_ref} in-place-mutators={len(mutators)}"
-                     + (f" dict ({is_dict})" if is_dict else ""), nontrivial=returns_self and by_ref, ok=not (shared or shared_dict))
+                     + (f" {kind} ({why})" if kind else ""), nontrivial=returns_self and by_ref, ok=not (shared or shared_held))
             if shared:
                 res.find(s.cls.name, prop, f"{f} shared by reference between source and copy and mutated in place", s.where,
                          f"copy_to_parent hands the source's {f} object to the copy's constructor; the setter keeps the reference and "
                          f"{mutators[0]} edits it in place: an edit of the copy's {prop} shows in the source",
                          resolved_on=K.name, mutators=mutators[:3])
-            if shared_dict:
-                res.find(s.cls.name, prop, f"{f} (a dict) is shared by reference between source and copy", s.where,
-                         f"copy_to_parent hands the source's {f} dict ({is_dict}) to the copy's constructor without copying it; the setter keeps "
-                         f"the reference and the getter hands the stored dict itself out: copy.{prop}[key] = ... (or any nested edit) shows in the source",
+            if shared_held:
+                noun = {"dict": "a dict", "list": "a list", "array": "an array"}[kind]
+                res.find(s.cls.name, prop, f"{f} ({noun}) is shared by reference between source and copy", s.where,
+                         f"copy_to_parent hands the source's {f} {kind} ({why}) to the copy's constructor without copying it; the setter keeps "
+                         f"the reference and the getter hands the stored {kind} itself out: copy.{prop}[..] = ... (or any nested edit) shows in the source",
                          resolved_on=K.name)
     res.notes.append(f"omit list of copy_to_parent: {sorted(omit0)}; copied on harvest: {sorted(copied)}"
                      + (f"; every harvested entry of type {sorted(copied_types)} copied" if copied_types else ""))
@@ -509,6 +542,9 @@ def _stores_param(a, f, s, fl: Flow, arg) -> bool:
     if not any(_self_attr(t, me, (f,)) for t in tgs):
         return False
     if not fl.is_param(a.value, arg):
+        return False
+    # ... and the argument as it came in still reaches this store (not `value = self.format(value); self._x = value`)
+    if not any(isinstance(o, ast.Name) and o.id == arg for o in fl.origins_at(a.value)):
         return False
     return not any(_rebound(s, nm, fl.node) for nm in fl.names_on_the_way(a.value) | {arg})
 
@@ -886,4 +922,41 @@ def rule_nested(ctx) -> RuleResult:
     return impl(ctx, _flow)
 
 
-RULES = [rule_alias, rule_fresh, rule_shape, rule_source, rule_pgroup, rule_nested]
+def rule_override(ctx) -> RuleResult:
+    from ._c12_round5 import rule_override as impl
+
+    return impl(ctx, _flow)
+
+
+def rule_harvest(ctx) -> RuleResult:
+    from ._c12_round5 import rule_harvest as impl
+
+    return impl(ctx, _flow)
+
+
+def rule_dedup(ctx) -> RuleResult:
+    from ._c12_round5 import rule_dedup as impl
+
+    return impl(ctx, _flow)
+
+
+def rule_snapshot(ctx) -> RuleResult:
+    from ._c12_round5 import rule_snapshot as impl
+
+    return impl(ctx, _flow)
+
+
+def rule_type_override(ctx) -> RuleResult:
+    from ._c12_round5 import rule_type_override as impl
+
+    return impl(ctx, _flow, _harvests(ctx))
+
+
+def rule_named_children(ctx) -> RuleResult:
+    from ._c12_round5 import rule_named_children as impl
+
+    return impl(ctx, _flow)
+
+
+RULES = [rule_alias, rule_fresh, rule_shape, rule_source, rule_pgroup, rule_nested, rule_override, rule_harvest, rule_dedup,
+         rule_snapshot, rule_type_override, rule_named_children]
